@@ -273,6 +273,20 @@ func (v *vPartImpl) exec(line string, hint vHint) (out string) {
 	switch f[0] {
 	case "begin":
 		v.closeSub()
+		if v.p != nil {
+			// the previous case's stream is deleted: thousands of leftover logs (two descriptors per segment) exhaust the
+			// process's file descriptors in the thorough tier; a delete that times out is left to the clean-up at the end
+			old := v.p.Stream
+			v.p = nil
+			for try := 0; try < 3; try++ {
+				ctx, cancel := context.WithTimeout(context.Background(), 15*time.Second)
+				_, err := v.s.api.DeleteStream(ctx, &client.DeleteStreamRequest{Name: old})
+				cancel()
+				if err == nil || !(strings.Contains(err.Error(), "raft operation timed out") || strings.Contains(err.Error(), "context deadline exceeded")) {
+					break
+				}
+			}
+		}
 		name := fmt.Sprintf("vs%d", atomic.AddInt64(&vStreamSeq, 1))
 		req := &client.CreateStreamRequest{Subject: name, Name: name, ReplicationFactor: 1, Partitions: 1,
 			CleanerInterval: &client.NullableInt64{Value: int64(time.Hour / time.Millisecond)},
